@@ -113,6 +113,7 @@ def tree_hash(paths):
 
 
 def pre_build_hooks():
+    sh([sys.executable, os.path.join(VERIF, "tools", "gen_coqproject.py")], cwd=VERIF)
     """Regenerating translators (DESIGN §3.2) run before the Coq build."""
     gen = os.path.join(VERIF, "tools", "regen.py")
     if os.path.exists(gen):
@@ -138,6 +139,7 @@ def build_coq(targets=None):
 def build_driver():
     """Extract the model to OCaml and build the driver; cached on the hash of the .v sources."""
     with Lock("ocaml"):
+        sh([sys.executable, os.path.join(VERIF, "tools", "gen_coqproject.py")], cwd=VERIF)
         srcs = [os.path.join(COQ, f) for f in coq_project_files()
                 if "/Proofs/" not in f and "/Properties/" not in f]
         srcs.append(os.path.join(COQ, "theories", "Extract", "Extract.v"))
